@@ -136,10 +136,11 @@ def compilePred : Rep → CState → Option CState
     | _, _ => none
   | _, _ => none
 
-/-- `seqIterator`: the right-nested top-level conjuncts of a body (a LEFT-nested conjunction stays
-    one goal and is executed through ','/2 → call/1) -/
+/-- `seqIterator`: the conjuncts of a body.  A conjunction is transparent to cut, so a left-nested
+    conjunction `((A, B), C)` is rotated to `(A, (B, C))` while iterating (the loop in
+    `seqIterator.Next`): the goals are the leaves of the whole ','/2 tree, left to right. -/
 def seqGoals : Rep → List Rep
-  | .compound "," (.cons a (.cons b .nil)) => a :: seqGoals b
+  | .compound "," (.cons a (.cons b .nil)) => seqGoals a ++ seqGoals b
   | g => [g]
 
 /-- `altIterator`: the top-level disjuncts of a body; an if-then-else stays one goal -/
